@@ -6,7 +6,7 @@
    reader connection does after the file changed under it are runtime behaviour; the model has
    the lock table only, the rest is exercised by reader threads against the real command. *)
 From Coq Require Import List ZArith Bool Lia.
-From Corro Require Import Model.Backup Model.RestoreLock Proofs.BackupProofs Proofs.RestoreLockProofs.
+From Corro Require Import Model.Backup Model.RestoreLock Gen.RestoreLocks Proofs.BackupProofs Proofs.RestoreLockProofs.
 Import ListNotations.
 Open Scope Z_scope.
 
@@ -51,6 +51,37 @@ Theorem C19_writer_excludes_everyone : forall ops b w o k,
   In (b, w, LWrite) t -> In (b, o, k) t -> o = w.
 Proof. exact writer_excludes_everyone. Qed.
 Print Assumptions C19_writer_excludes_everyone.
+
+(* lock_all (its lock() calls are GENERATED from sqlite3_restore.rs, Gen/RestoreLocks.v): when it
+   succeeds on a WAL destination, no other process held any lock on SQLite's WAL lock bytes --
+   WRITE 120, CKPT 121, RECOVER 122 and the five read marks 123..127, one of which every
+   reader inside a read transaction holds -- and on a rollback-journal destination nobody held
+   PENDING, RESERVED or SHARED.  Together with C19_writer_excludes_everyone: from then until
+   the locks are dropped no reader is inside, or can start, a read transaction. *)
+Theorem C19_wal_lock_all_excludes_every_reader : forall t w t' b o k,
+  run_locks t w lock_all_wal = Some t' -> 120 <= b <= 127 -> In (b, o, k) t -> o = w.
+Proof.
+  intros t w t' b o k Hrun Hb Hin. eapply run_locks_excludes; [exact Hrun| |exact Hin].
+  assert (H : b = 120 \/ b = 121 \/ b = 122 \/ b = 123 \/ b = 124 \/ b = 125 \/ b = 126 \/ b = 127) by lia.
+  destruct H as [->|[->|[->|[->|[->|[->|[->| ->]]]]]]]; vm_compute; reflexivity.
+Qed.
+Print Assumptions C19_wal_lock_all_excludes_every_reader.
+
+Theorem C19_rollback_lock_all_excludes_every_reader : forall t w t' b o k,
+  run_locks t w (lock_all_probe ++ lock_all_rollback) = Some t' ->
+  b = 1073741824 \/ b = 1073741825 \/ b = 1073741826 -> In (b, o, k) t -> o = w.
+Proof.
+  intros t w t' b o k Hrun Hb Hin. eapply run_locks_excludes; [exact Hrun| |exact Hin].
+  destruct Hb as [->|[->| ->]]; vm_compute; reflexivity.
+Qed.
+Print Assumptions C19_rollback_lock_all_excludes_every_reader.
+
+(* non-vacuity: with a reader on read mark 4 lock_all fails; with nobody inside it succeeds *)
+Example C19_lock_all_nonvacuous :
+  run_locks [(127, 7, LRead)] 1 lock_all_wal = None /\
+  (exists t', run_locks [] 1 lock_all_wal = Some t') /\
+  run_locks [(1073741826, 7, LRead)] 1 (lock_all_probe ++ lock_all_rollback) = None.
+Proof. vm_compute. split; [reflexivity|split; [eexists; reflexivity|reflexivity]]. Qed.
 
 Example C19_nonvacuous :
   let src := mkB [(0, 70); (1, 80); (2, 90)] [(100, 0); (101, 1); (102, 0); (103, 2)] [5] [6] in
